@@ -1,5 +1,5 @@
 (* C03 - Everything the authenticator emits is CTAP2 canonical CBOR. *)
-From Ctap Require Import Base Schema Wire Typed Procs Inst Tables ProcTables Canonical WireP SerP FramingP C03P ObSerRole ObDeclOrder FnShapes Shapes ObShapeResponse ObShapeFilters Deps ObDeps ObShapeAuthdata.
+From Ctap Require Import Base Schema Wire Typed Procs Inst Tables ProcTables Canonical WireP SerP FramingP C03P ObSerRole ObDeclOrder FnShapes Shapes ObShapeResponse ObShapeFilters Deps ObDeps ObShapeAuthdata ObShapeBuilders.
 Local Open Scope string_scope.
 Local Open Scope Z_scope.
 
@@ -69,12 +69,16 @@ Theorem c03_modelled_functions_unchanged_filters : shapes_hold fn_shapes shapes_
 Proof. exact generated_shapes_filters. Qed.
 
 (* the third-party crates the model represents by hand are pinned at the versions it was written against *)
-Theorem c03_modelled_dependencies_pinned : deps_hold lock_versions cargo_deps = true.
+Theorem c03_modelled_dependencies_pinned : deps_hold repo_lock_present lock_versions harness_lock_versions cargo_deps = true.
 Proof. exact generated_deps. Qed.
 
 (* further hand-modelled functions this property rests on *)
 Theorem c03_modelled_functions_unchanged_authdata : shapes_hold fn_shapes shapes_authdata = true.
 Proof. exact generated_shapes_authdata. Qed.
+
+(* lookup tables, accessors, builders and further generators this property rests on *)
+Theorem c03_modelled_functions_unchanged_builders : shapes_hold fn_shapes shapes_builders = true.
+Proof. exact generated_shapes_builders. Qed.
 
 Eval vm_compute in "ASSUMPTIONS c03_all_structs_ordered". Print Assumptions c03_all_structs_ordered.
 Eval vm_compute in "ASSUMPTIONS c03_encoder_canonical". Print Assumptions c03_encoder_canonical.
@@ -89,3 +93,4 @@ Eval vm_compute in "ASSUMPTIONS c03_modelled_functions_unchanged_response". Prin
 Eval vm_compute in "ASSUMPTIONS c03_modelled_functions_unchanged_filters". Print Assumptions c03_modelled_functions_unchanged_filters.
 Eval vm_compute in "ASSUMPTIONS c03_modelled_dependencies_pinned". Print Assumptions c03_modelled_dependencies_pinned.
 Eval vm_compute in "ASSUMPTIONS c03_modelled_functions_unchanged_authdata". Print Assumptions c03_modelled_functions_unchanged_authdata.
+Eval vm_compute in "ASSUMPTIONS c03_modelled_functions_unchanged_builders". Print Assumptions c03_modelled_functions_unchanged_builders.
